@@ -769,12 +769,447 @@ Proof.
 Qed.
 
 
+(* ---- iterators: from_iter, map / map_mut, from_iters *)
+Lemma exact_same_list_eq a b : exact_same_list a b = true -> a = b.
+Proof.
+  destruct a, b; cbn; intros H; try discriminate; try reflexivity. apply Nat.eqb_eq in H. congruence.
+Qed.
+
+Lemma c_from_iter_records tensor sh (rs : list rec) (c : cont) : c_from_iter tensor sh rs = Ok c ->
+  as_records c = rs /\ c_tensor c = tensor /\ c_shape c = sh.
+Proof.
+  unfold c_from_iter. destruct (consistent_history rs) eqn:Ec; cbn [negb]; [|discriminate].
+  destruct rs as [|r rest]; [discriminate|].
+  destruct (if tensor then _ else _); [|discriminate]. intros E; inversion E; subst c; clear E.
+  split; [|split; reflexivity]. rewrite as_records_mk. cbn [c_data c_hist].
+  cbn [consistent_history] in Ec. cbn [map fst snd]. f_equal; [destruct r; reflexivity|].
+  induction rest as [|q rest IH]; [reflexivity|]. cbn [forallb] in Ec. apply andb_true_iff in Ec as [E1 E2].
+  cbn [map fst snd]. f_equal; [|apply IH; exact E2]. apply exact_same_list_eq in E1. rewrite E1. destruct q; reflexivity.
+Qed.
+
+Lemma Forall2_firstn {A B} (P : A -> B -> Prop) : forall n l1 l2, Forall2 P l1 l2 -> Forall2 P (firstn n l1) (firstn n l2).
+Proof. induction n; intros l1 l2 H; cbn; [constructor|]. destruct H; constructor; auto. Qed.
+
+Lemma Forall2_skipn {A B} (P : A -> B -> Prop) : forall n l1 l2, Forall2 P l1 l2 -> Forall2 P (skipn n l1) (skipn n l2).
+Proof. induction n; intros l1 l2 H; cbn; [exact H|]. destruct H; [constructor|auto]. Qed.
+
+Lemma Forall2_flat_map {A B C} (P : A -> B -> Prop) (f : C -> list A) (g : C -> list B) :
+  forall l, (forall k, Forall2 P (f k) (g k)) -> Forall2 P (flat_map f l) (flat_map g l).
+Proof. induction l; intros H; cbn; [constructor|]. apply Forall2_app; auto. Qed.
+
+Lemma Forall2_column_major {A B} (P : A -> B -> Prop) sh l1 l2 :
+  Forall2 P l1 l2 -> Forall2 P (column_major sh l1) (column_major sh l2).
+Proof.
+  intros H. unfold column_major. destruct sh as [|[? rows] [|[? columns] [|]]]; try exact H.
+  apply Forall2_flat_map. intros j. unfold column_of. apply Forall2_flat_map. intros k.
+  apply Forall2_firstn, Forall2_skipn, H.
+Qed.
+
+Lemma sim_fromiter x j ct cenv et eenv ctgt etgt fenv tensor sh cm a ct' cs et' es :
+  Inv x j ct cenv et eenv ctgt etgt fenv ->
+  cstep ops (ct, cenv) (OFromIter tensor sh cm a) = Some (Ok (ct', cs)) ->
+  estep ops (et, eenv) (OFromIter tensor sh cm a) = Some (Ok (et', es)) ->
+  exists fs, Inv x j ct' (cenv ++ cs) et' (eenv ++ es) ctgt etgt (fenv ++ fs) /\ length cs = 1.
+Proof.
+  intros I. cbn [cstep estep].
+  destruct (nth_error cenv a) as [cx|] eqn:Ea; [|discriminate].
+  destruct (Inv_get _ _ _ _ _ _ _ _ _ _ _ I Ea) as (ex & ds & Ee & Hc & He & [L1 L2]). rewrite Ee.
+  destruct (cm && c_tensor cx); [discriminate|]. destruct (cm && e_tensor ex); [discriminate|].
+  destruct (negb tensor && negb (Nat.eqb (length sh) 2)); [discriminate|].
+  destruct (c_from_iter tensor sh (if cm then column_major (c_shape cx) (as_records cx) else as_records cx))
+    as [c| |] eqn:Ef; try discriminate.
+  cbn [omap]. intros E; inversion E; subst ct' cs; clear E. intros E; inversion E; subst et' es; clear E.
+  destruct (c_from_iter_records _ _ _ _ Ef) as (R1 & R2 & R3).
+  pose proof I as (G1 & _ & _ & G2 & _).
+  exists [if cm then column_major (c_shape cx) ds else ds]. split; [|reflexivity].
+  apply (Inv_op _ _ _ _ _ _ _ _ _ _ _ _ _ _ _ _ I (ext_refl _ _ G1) (ext_refl _ _ G2)).
+  - constructor; [|constructor]. unfold cont_ok. rewrite R1. destruct cm; [apply Forall2_column_major|]; exact Hc.
+  - constructor; [|constructor]. unfold eok. cbn [e_recs]. rewrite <- L2.
+    destruct cm; [apply Forall2_column_major|]; exact He.
+  - constructor; [|constructor]. split; cbn; assumption.
+Qed.
+
+(* the scalar closures, evaluated on duals *)
+Fixpoint deval (e : sexpr R) (d : dual) (first : bool) : dual :=
+  match e with
+  | SX => d
+  | SK c => (c, rO)
+  | SDetach e1 => (fst (deval e1 d first), rO)
+  | SUn code c e1 => match unfn_of ops code c with Some f => du f (deval e1 d first) | None => (rO, rO) end
+  | SBin code e1 e2 =>
+      match binfn_of ops code with Some f => db f (deval e1 d first) (deval e2 d first) | None => (rO, rO) end
+  | SFirst e1 e2 => if first then deval e1 d first else deval e2 d first
+  end.
+
+Lemma rec_eval_ok first : forall e t s x d t' y, good t s -> rec_ok t s x d ->
+  rec_eval ops t e x first = Some (Ok (t', y)) ->
+  exists s', ext t s t' s' /\ rec_ok t' s' y (deval e d first).
+Proof.
+  induction e as [|c|e1 IH1|code c e1 IH1|code e1 IH1 e2 IH2|e1 IH1 e2 IH2]; intros t s x d t' y G Hx; cbn [rec_eval deval].
+  - intros E; inversion E; subst. exists s. split; [apply ext_refl; auto|exact Hx].
+  - intros E; inversion E; subst. exists s. split; [apply ext_refl; auto|apply rec_constant_ok].
+  - destruct (rec_eval ops t e1 x first) as [[[t1 r]| |]|] eqn:E1; try discriminate.
+    intros E; inversion E; subst. destruct (IH1 _ _ _ _ _ _ G Hx E1) as (s1 & X1 & [Hv _]).
+    exists s1. split; [exact X1|]. split; [cbn; exact Hv|reflexivity].
+  - destruct (rec_eval ops t e1 x first) as [[[t1 r]| |]|] eqn:E1; try discriminate.
+    intros E. destruct (IH1 _ _ _ _ _ _ G Hx E1) as (s1 & X1 & Hr).
+    assert (Hf : exists f, unfn_of ops code c = Some f).
+    { revert E. unfold rec_unary_code. destruct code; [cbn; eauto|]. destruct (unfn_of ops (S code) c); [eauto|discriminate]. }
+    destruct Hf as [f Hf]. rewrite Hf.
+    destruct (rec_unary_code_ok _ _ _ _ _ _ _ _ _ (proj1 (proj2 X1)) Hr Hf E) as (s2 & X2 & Hy).
+    exists s2. split; [eapply ext_trans; eauto|exact Hy].
+  - destruct (binfn_of ops code) as [f|]; [|discriminate].
+    destruct (rec_eval ops t e1 x first) as [[[t1 r1]| |]|] eqn:E1; try discriminate.
+    destruct (IH1 _ _ _ _ _ _ G Hx E1) as (s1 & X1 & Hr1).
+    destruct (rec_eval ops t1 e2 x first) as [[[t2 r2]| |]|] eqn:E2; try discriminate.
+    pose proof X1 as (_ & G1 & M1).
+    destruct (IH2 _ _ _ _ _ _ G1 (M1 _ _ Hx) E2) as (s2 & X2 & Hr2).
+    pose proof X2 as (_ & G2 & M2).
+    intros E. inversion E as [E'].
+    destruct (rec_binary_ok _ _ _ _ _ _ _ _ _ G2 (M2 _ _ Hr1) Hr2 E') as (s3 & X3 & Hz).
+    exists s3. split; [eapply ext_trans; [exact X1|eapply ext_trans; eauto]|exact Hz].
+  - destruct first; [apply IH1|apply IH2]; assumption.
+Qed.
+
+Fixpoint deval_each (e : sexpr R) (ds : list dual) (first : bool) : list dual :=
+  match ds with [] => [] | d :: r => deval e d first :: deval_each e r false end.
+
+Lemma eval_each_ok e : forall rs ds first t s t' ys, good t s -> recs_ok t s rs ds ->
+  eval_each ops t e rs first = Some (Ok (t', ys)) ->
+  exists s', ext t s t' s' /\ recs_ok t' s' ys (deval_each e ds first).
+Proof.
+  induction rs as [|r rest IH]; intros ds first t s t' ys G Hr.
+  - cbn. intros E. inversion E; subst. exists s. split; [apply ext_refl; auto|]. inversion Hr; subst. constructor.
+  - inversion Hr as [|? d ? dr Hr1 Hrr]; subst. cbn [eval_each].
+    destruct (rec_eval ops t e r first) as [[[t1 y]| |]|] eqn:E1; try discriminate.
+    destruct (rec_eval_ok first e _ _ _ _ _ _ G Hr1 E1) as (s1 & X1 & Hy).
+    destruct (eval_each ops t1 e rest false) as [[[t2 yr]| |]|] eqn:E2; try discriminate.
+    intros E. inversion E; subst t' ys; clear E.
+    destruct (IH dr false t1 s1 t2 yr (proj1 (proj2 X1)) (recs_ok_ext _ _ _ _ _ _ X1 Hrr) E2) as (s2 & X2 & Hyr).
+    exists s2. split; [eapply ext_trans; eauto|]. cbn [deval_each]. constructor; [|exact Hyr].
+    destruct X2 as (_ & _ & M). apply M. exact Hy.
+Qed.
+
+Lemma sim_map x j ct cenv et eenv ctgt etgt fenv mu e a ct' cs et' es :
+  Inv x j ct cenv et eenv ctgt etgt fenv ->
+  cstep ops (ct, cenv) (OMap mu e a) = Some (Ok (ct', cs)) ->
+  estep ops (et, eenv) (OMap mu e a) = Some (Ok (et', es)) ->
+  exists fs, Inv x j ct' (cenv ++ cs) et' (eenv ++ es) ctgt etgt (fenv ++ fs) /\ length cs = 1.
+Proof.
+  intros I. cbn [cstep estep].
+  destruct (nth_error cenv a) as [cx|] eqn:Ea; [|discriminate].
+  destruct (Inv_get _ _ _ _ _ _ _ _ _ _ _ I Ea) as (ex & ds & Ee & Hc & He & [L1 L2]). rewrite Ee.
+  unfold c_map. destruct (eval_each ops ct e (as_records cx) true) as [[[t1 ys]| |]|] eqn:E1; try discriminate.
+  destruct (c_from_iter (c_tensor cx) (c_shape cx) ys) as [c| |] eqn:Ef; try discriminate.
+  cbn [omap fst snd]. intros E; inversion E; subst ct' cs; clear E.
+  destruct (eval_each ops et e (e_recs ex) true) as [[[t2 zs]| |]|] eqn:E2; try discriminate.
+  cbn [omap fst snd]. intros E; inversion E; subst et' es; clear E.
+  destruct (c_from_iter_records _ _ _ _ Ef) as (R1 & R2 & R3).
+  pose proof I as (G1 & _ & _ & G2 & _).
+  destruct (eval_each_ok e _ _ _ _ _ _ _ G1 Hc E1) as (s1 & X1 & Hys).
+  destruct (eval_each_ok e _ _ _ _ _ _ _ G2 He E2) as (s2 & X2 & Hzs).
+  exists [deval_each e ds true]. split; [|reflexivity].
+  apply (Inv_op _ _ _ _ _ _ _ _ _ _ _ s1 s2 _ _ _ I X1 X2).
+  - constructor; [|constructor]. unfold cont_ok. rewrite R1. exact Hys.
+  - constructor; [|constructor]. exact Hzs.
+  - constructor; [|constructor]. split; cbn; congruence.
+Qed.
+
+(* ---- matrix multiplication *)
+Fixpoint dsum (acc : dual) (ps : list (dual * dual)) : dual :=
+  match ps with
+  | [] => acc
+  | p :: r => dsum (db (Addition ops) acc (db (Multiplication ops) (fst p) (snd p))) r
+  end.
+Definition dcell (ls rs : list dual) : dual :=
+  match combine ls rs with
+  | [] => (rO, rO)
+  | p :: r => dsum (db (Multiplication ops) (fst p) (snd p)) r
+  end.
+
+Lemma rec_ok_hist t s v h1 h2 i d : rec_ok t s (mkRec v (Some h1) i) d -> rec_ok t s (mkRec v (Some h2) i) d.
+Proof. intros H. exact H. Qed.
+
+Lemma product_step_ok t s lh rh h x xi y yi dx dy t' z i : good t s ->
+  rec_ok t s (mkRec x lh xi) dx -> rec_ok t s (mkRec y rh yi) dy ->
+  same_list lh rh = true -> first_hist lh rh = Some h ->
+  product_step ops t lh rh ((x, xi), (y, yi)) = (t', (z, i)) ->
+  exists s', ext t s t' s' /\ rec_ok t' s' (mkRec z (Some h) i) (db (Multiplication ops) dx dy).
+Proof.
+  intros G Hx Hy Hs Hf Hp.
+  assert (E : exists h0, rec_binary ops t (Multiplication ops) (mkRec x lh xi) (mkRec y rh yi) = Ok (t', mkRec z (Some h0) i)).
+  { unfold rec_binary. cbn [r_hist r_num r_idx]. rewrite Hs. cbn [negb].
+    unfold product_step in Hp. destruct lh as [hl|], rh as [hr|]; cbn in Hp |- *; inversion Hp; subst; eauto.
+    cbn in Hf. discriminate. }
+  destruct E as [h0 E]. destruct (rec_binary_ok _ _ _ _ _ _ _ _ _ G Hx Hy E) as (s' & X & Hz).
+  exists s'. split; [exact X|exact Hz].
+Qed.
+
+Lemma scalar_product_rest_ok lh rh h : same_list lh rh = true -> first_hist lh rh = Some h ->
+  forall ls rs dls drs t s acc dacc t' z, good t s ->
+  recs_ok t s (map (mk lh) ls) dls -> recs_ok t s (map (mk rh) rs) drs ->
+  rec_ok t s (mkRec (fst acc) (Some h) (snd acc)) dacc ->
+  scalar_product_rest ops t lh rh acc (combine ls rs) = (t', z) ->
+  exists s', ext t s t' s' /\ rec_ok t' s' (mkRec (fst z) (Some h) (snd z)) (dsum dacc (combine dls drs)).
+Proof.
+  intros Hs Hf. induction ls as [|[x xi] lr IH]; intros rs dls drs t s acc dacc t' z G Hl Hr Ha.
+  - cbn. intros E; inversion E; subst. inversion Hl; subst. cbn. exists s. split; [apply ext_refl; auto|exact Ha].
+  - destruct rs as [|[y yi] rr].
+    + cbn. intros E; inversion E; subst. inversion Hr; subst. inversion Hl; subst. cbn.
+      exists s. split; [apply ext_refl; auto|exact Ha].
+    + cbn [map] in Hl, Hr. inversion Hl as [|? dx ? dlr Hx Hlr]; subst. inversion Hr as [|? dy ? drr Hy Hrr]; subst.
+      cbn [combine scalar_product_rest].
+      destruct (product_step ops t lh rh (x, xi, (y, yi))) as [t1 [py pyi]] eqn:Ep.
+      destruct (product_step_ok _ _ _ _ _ _ _ _ _ _ _ _ _ _ G Hx Hy Hs Hf Ep) as (s1 & X1 & Hp).
+      destruct acc as [ax axi]. cbn [fst snd] in Ha. cbn [append_binary].
+      pose proof X1 as (_ & G1 & M1).
+      assert (Eb : rec_binary ops t1 (Addition ops) (mkRec ax (Some h) axi) (mkRec py (Some h) pyi) =
+                   Ok (t1 ++ [mkEntry axi pyi (bdx (Addition ops) ax py) (bdy (Addition ops) ax py)],
+                       mkRec (bf (Addition ops) ax py) (Some h) (length t1))).
+      { unfold rec_binary. cbn. rewrite Nat.eqb_refl. reflexivity. }
+      destruct (rec_binary_ok _ _ _ _ _ _ _ _ _ G1 (M1 _ _ Ha) Hp Eb) as (s2 & X2 & Hsum).
+      pose proof X2 as (_ & G2 & M2). intros E.
+      destruct (IH rr dlr drr _ s2 (bf (Addition ops) ax py, length t1) _ t' z G2
+                  (recs_ok_ext _ _ _ _ _ _ X2 (recs_ok_ext _ _ _ _ _ _ X1 Hlr))
+                  (recs_ok_ext _ _ _ _ _ _ X2 (recs_ok_ext _ _ _ _ _ _ X1 Hrr)) Hsum E) as (s3 & X3 & Hz).
+      exists s3. split; [eapply ext_trans; [exact X1|eapply ext_trans; eauto]|]. exact Hz.
+Qed.
+
+Lemma dsum_const t s : forall (ls rs : list (R * nat)) dls drs acc dacc,
+  recs_ok t s (map (mk None) ls) dls -> recs_ok t s (map (mk None) rs) drs ->
+  fst dacc = acc -> snd dacc = rO ->
+  fst (dsum dacc (combine dls drs)) =
+    fold_left (fun a p => nadd ops a (nmul ops (fst (fst p)) (fst (snd p)))) (combine ls rs) acc /\
+  snd (dsum dacc (combine dls drs)) = rO.
+Proof.
+  induction ls as [|[x xi] lr IH]; intros rs dls drs acc dacc Hl Hr Ha Hb.
+  - inversion Hl; subst. cbn. auto.
+  - destruct rs as [|[y yi] rr].
+    + inversion Hr; subst. inversion Hl; subst. cbn. auto.
+    + cbn [map] in Hl, Hr. inversion Hl as [|? dx ? dlr [Hx1 Hx2] Hlr]; subst.
+      inversion Hr as [|? dy ? drr [Hy1 Hy2] Hrr]; subst. cbn in Hx1, Hx2, Hy1, Hy2.
+      cbn [combine dsum fold_left fst snd]. apply IH; [exact Hlr|exact Hrr| |].
+      * unfold db. cbn. try rewrite Ha. rewrite Hx1, Hy1. reflexivity.
+      * unfold db. cbn. rewrite Hb, Hx2, Hy2. ring.
+Qed.
+
+Lemma rsp_ok t s lh rh ls rs dls drs t' z : same_list lh rh = true -> good t s ->
+  recs_ok t s (map (mk lh) ls) dls -> recs_ok t s (map (mk rh) rs) drs ->
+  record_scalar_product ops t lh rh ls rs = Some (t', z) ->
+  exists s', ext t s t' s' /\ rec_ok t' s' (mkRec (fst z) (first_hist lh rh) (snd z)) (dcell dls drs).
+Proof.
+  intros Hs G Hl Hr. unfold record_scalar_product. destruct (first_hist lh rh) as [h|] eqn:Hf.
+  - destruct ls as [|[x xi] lr]; [discriminate|]. destruct rs as [|[y yi] rr]; [discriminate|].
+    cbn [map] in Hl, Hr. inversion Hl as [|? dx ? dlr Hx Hlr]; subst. inversion Hr as [|? dy ? drr Hy Hrr]; subst.
+    cbn [combine]. destruct (product_step ops t lh rh (x, xi, (y, yi))) as [t1 [pz pi]] eqn:Ep.
+    destruct (product_step_ok _ _ _ _ _ _ _ _ _ _ _ _ _ _ G Hx Hy Hs Hf Ep) as (s1 & X1 & Hp).
+    intros E. inversion E as [E']. pose proof X1 as (_ & G1 & _).
+    destruct (scalar_product_rest_ok lh rh h Hs Hf lr rr dlr drr t1 s1 (pz, pi) _ t' z G1
+                (recs_ok_ext _ _ _ _ _ _ X1 Hlr) (recs_ok_ext _ _ _ _ _ _ X1 Hrr) Hp E') as (s2 & X2 & Hz).
+    exists s2. split; [eapply ext_trans; eauto|]. unfold dcell. cbn [combine fst snd]. exact Hz.
+  - assert (lh = None /\ rh = None) as [-> ->] by (destruct lh, rh; cbn in Hf; try discriminate; auto).
+    destruct ls as [|[x xi] lr]; [discriminate|]. destruct rs as [|[y yi] rr]; [discriminate|].
+    cbn [map] in Hl, Hr. inversion Hl as [|? dx ? dlr [Hx1 Hx2] Hlr]; subst.
+    inversion Hr as [|? dy ? drr [Hy1 Hy2] Hrr]; subst. cbn in Hx1, Hx2, Hy1, Hy2.
+    cbn [combine]. intros E. inversion E; subst t' z; clear E. exists s. split; [apply ext_refl; auto|].
+    unfold dcell. cbn [combine fst snd].
+    destruct (dsum_const t s lr rr dlr drr (nmul ops x y) (db (Multiplication ops) dx dy) Hlr Hrr) as [V T].
+    + unfold db. cbn. rewrite Hx1, Hy1. reflexivity.
+    + unfold db. cbn. rewrite Hx2, Hy2. ring.
+    + split; [cbn; rewrite V; reflexivity|cbn; exact T].
+Qed.
+
+Lemma map_row_of {A B} (f : A -> B) n l i : map f (row_of n l i) = row_of n (map f l) i.
+Proof. unfold row_of. rewrite skipn_map, firstn_map. reflexivity. Qed.
+
+Lemma map_column_of {A B} (f : A -> B) rows cols l j : map f (column_of rows cols l j) = column_of rows cols (map f l) j.
+Proof.
+  unfold column_of. induction (seq 0 rows) as [|k r IH]; cbn [flat_map map]; [reflexivity|].
+  rewrite map_app, IH, skipn_map, firstn_map. reflexivity.
+Qed.
+
+Lemma Forall2_row_of {A B} (P : A -> B -> Prop) n l1 l2 i : Forall2 P l1 l2 -> Forall2 P (row_of n l1 i) (row_of n l2 i).
+Proof. intros H. unfold row_of. apply Forall2_firstn, Forall2_skipn, H. Qed.
+
+Lemma Forall2_column_of {A B} (P : A -> B -> Prop) rows cols l1 l2 j :
+  Forall2 P l1 l2 -> Forall2 P (column_of rows cols l1 j) (column_of rows cols l2 j).
+Proof. intros H. unfold column_of. apply Forall2_flat_map. intros k. apply Forall2_firstn, Forall2_skipn, H. Qed.
+
+Definition dcells (inner columns : nat) (dls drs : list dual) (cs : list (nat * nat)) : list dual :=
+  map (fun ij => dcell (row_of inner dls (fst ij)) (column_of inner columns drs (snd ij))) cs.
+
+Lemma matmul_cells_ok lh rh rows inner columns ldata rdata dls drs : same_list lh rh = true ->
+  forall cs t s t' zs, good t s ->
+  recs_ok t s (map (mk lh) ldata) dls -> recs_ok t s (map (mk rh) rdata) drs ->
+  matmul_cells ops t lh rh rows inner columns ldata rdata cs = Some (t', zs) ->
+  exists s', ext t s t' s' /\ recs_ok t' s' (map (mk (first_hist lh rh)) zs) (dcells inner columns dls drs cs).
+Proof.
+  intros Hs. induction cs as [|[i j] r IH]; intros t s t' zs G Hl Hr.
+  - cbn. intros E; inversion E; subst. exists s. split; [apply ext_refl; auto|constructor].
+  - cbn [matmul_cells].
+    destruct (record_scalar_product ops t lh rh (row_of inner ldata i) (column_of inner columns rdata j))
+      as [[t1 z]|] eqn:E1; [|discriminate].
+    assert (Hl' : recs_ok t s (map (mk lh) (row_of inner ldata i)) (row_of inner dls i)).
+    { rewrite map_row_of. apply Forall2_row_of. exact Hl. }
+    assert (Hr' : recs_ok t s (map (mk rh) (column_of inner columns rdata j)) (column_of inner columns drs j)).
+    { rewrite map_column_of. apply Forall2_column_of. exact Hr. }
+    destruct (rsp_ok _ _ _ _ _ _ _ _ _ _ Hs G Hl' Hr' E1) as (s1 & X1 & Hz).
+    destruct (matmul_cells ops t1 lh rh rows inner columns ldata rdata r) as [[t2 zr]|] eqn:E2; [|discriminate].
+    intros E; inversion E; subst t' zs; clear E.
+    destruct (IH _ _ _ _ (proj1 (proj2 X1)) (recs_ok_ext _ _ _ _ _ _ X1 Hl) (recs_ok_ext _ _ _ _ _ _ X1 Hr) E2)
+      as (s2 & X2 & Hzr).
+    exists s2. split; [eapply ext_trans; eauto|]. cbn [map dcells]. constructor; [|exact Hzr].
+    destruct X2 as (_ & _ & M). apply M. exact Hz.
+Qed.
+
+(* the element-by-element product: all products first, then the sum from the left *)
+Lemma each_products_eq : forall xs ys t,
+  each_products ops t xs ys = each_binary ops t (Multiplication ops) xs ys.
+Proof.
+  induction xs as [|x xr IH]; intros [|y yr] t; cbn; try reflexivity.
+  destruct (rec_binary ops t (Multiplication ops) x y) as [[t1 z]| |]; try reflexivity. rewrite IH. reflexivity.
+Qed.
+
+Lemma each_sum_ok : forall rs ds t s acc dacc t' z, good t s -> rec_ok t s acc dacc -> recs_ok t s rs ds ->
+  each_sum ops t acc rs = Ok (t', z) ->
+  exists s', ext t s t' s' /\ rec_ok t' s' z (fold_left (db (Addition ops)) ds dacc).
+Proof.
+  induction rs as [|r rest IH]; intros ds t s acc dacc t' z G Ha Hr.
+  - cbn. intros E; inversion E; subst. inversion Hr; subst. exists s. split; [apply ext_refl; auto|exact Ha].
+  - inversion Hr as [|? d ? dr Hr1 Hrr]; subst. cbn [each_sum].
+    destruct (rec_binary ops t (Addition ops) acc r) as [[t1 sm]| |] eqn:E1; try discriminate.
+    destruct (rec_binary_ok _ _ _ _ _ _ _ _ _ G Ha Hr1 E1) as (s1 & X1 & Hsm). intros E.
+    destruct (IH dr t1 s1 sm _ t' z (proj1 (proj2 X1)) Hsm (recs_ok_ext _ _ _ _ _ _ X1 Hrr) E) as (s2 & X2 & Hz).
+    exists s2. split; [eapply ext_trans; eauto|exact Hz].
+Qed.
+
+Lemma dsum_fold : forall dls drs acc,
+  dsum acc (combine dls drs) = fold_left (db (Addition ops)) (db2 (Multiplication ops) dls drs) acc.
+Proof.
+  unfold db2. induction dls as [|a dr IH]; intros [|b rr] acc; cbn; try reflexivity. apply IH.
+Qed.
+
+Lemma each_cells_ok rows inner columns (l r : list rec) dls drs :
+  forall cs t s t' zs, good t s -> recs_ok t s l dls -> recs_ok t s r drs ->
+  each_cells ops t rows inner columns l r cs = Ok (t', zs) ->
+  exists s', ext t s t' s' /\ recs_ok t' s' zs (dcells inner columns dls drs cs).
+Proof.
+  induction cs as [|[i j] rest IH]; intros t s t' zs G Hl Hr.
+  - cbn. intros E; inversion E; subst. exists s. split; [apply ext_refl; auto|constructor].
+  - cbn [each_cells]. rewrite each_products_eq.
+    destruct (each_binary ops t (Multiplication ops) (row_of inner l i) (column_of inner columns r j))
+      as [[t1 [|p ps]]| |] eqn:E1; try discriminate.
+    destruct (each_binary_ok _ _ _ _ _ _ _ _ _ G (Forall2_row_of _ inner _ _ i Hl)
+                (Forall2_column_of _ inner columns _ _ j Hr) E1) as (s1 & X1 & Hps).
+    destruct (each_sum ops t1 p ps) as [[t2 z]| |] eqn:E2; try discriminate.
+    unfold db2 in Hps.
+    destruct (combine (row_of inner dls i) (column_of inner columns drs j)) as [|q qs] eqn:Ecb;
+      [inversion Hps|]. cbn [map] in Hps. inversion Hps as [|? ? ? ? Hp Hps']; subst.
+    destruct (each_sum_ok _ _ _ _ _ _ _ _ (proj1 (proj2 X1)) Hp Hps' E2) as (s2 & X2 & Hz).
+    destruct (each_cells ops t2 rows inner columns l r rest) as [[t3 zr]| |] eqn:E3; try discriminate.
+    intros E; inversion E; subst t' zs; clear E.
+    pose proof (ext_trans _ _ _ _ _ _ X1 X2) as X12.
+    destruct (IH _ _ _ _ (proj1 (proj2 X2)) (recs_ok_ext _ _ _ _ _ _ X12 Hl) (recs_ok_ext _ _ _ _ _ _ X12 Hr) E3)
+      as (s3 & X3 & Hzr).
+    exists s3. split; [eapply ext_trans; eauto|]. cbn [map dcells]. constructor; [|exact Hzr].
+    destruct X3 as (_ & _ & M). apply M. unfold dcell. cbn [fst snd]. rewrite Ecb.
+    change (dsum (db (Multiplication ops) (fst q) (snd q)) qs) with (dsum (db (Multiplication ops) (fst q) (snd q)) qs).
+    assert (Q : dsum (db (Multiplication ops) (fst q) (snd q)) qs =
+                fold_left (db (Addition ops)) (map (fun p0 => db (Multiplication ops) (fst p0) (snd p0)) qs)
+                          (db (Multiplication ops) (fst q) (snd q))).
+    { clear. generalize (db (Multiplication ops) (fst q) (snd q)). induction qs as [|u us IHq]; intros a; cbn; [reflexivity|apply IHq]. }
+    rewrite Q. exact Hz.
+Qed.
+
+Lemma sim_matmul x j ct cenv et eenv ctgt etgt fenv a b ct' cs et' es :
+  Inv x j ct cenv et eenv ctgt etgt fenv ->
+  cstep ops (ct, cenv) (OMatmul a b) = Some (Ok (ct', cs)) ->
+  estep ops (et, eenv) (OMatmul a b) = Some (Ok (et', es)) ->
+  exists fs, Inv x j ct' (cenv ++ cs) et' (eenv ++ es) ctgt etgt (fenv ++ fs) /\ length cs = 1.
+Proof.
+  intros I. cbn [cstep estep].
+  destruct (nth_error cenv a) as [cx|] eqn:Ea; [|discriminate].
+  destruct (nth_error cenv b) as [cy|] eqn:Eb; [|discriminate].
+  destruct (Inv_get _ _ _ _ _ _ _ _ _ _ _ I Ea) as (ex & dxs & Eea & Hcx & Hex & [Lx1 Lx2]). rewrite Eea.
+  destruct (Inv_get _ _ _ _ _ _ _ _ _ _ _ I Eb) as (ey & dys & Eeb & Hcy & Hey & [Ly1 Ly2]). rewrite Eeb.
+  destruct (_ || _); [discriminate|].
+  unfold c_matmul. destruct (same_list (c_hist cx) (c_hist cy)) eqn:Hs; cbn [negb omap]; [|discriminate].
+  rewrite <- Lx2, <- Ly2, <- Lx1.
+  destruct (negb (Bool.eqb (c_tensor cx) (e_tensor ey))); [discriminate|].
+  destruct (c_shape cx) as [|[n0 rows] [|[n1 inner] [|]]]; try discriminate.
+  destruct (c_shape cy) as [|[n2 inner2] [|[n3 columns] [|]]]; try discriminate.
+  destruct (negb (Nat.eqb inner inner2)); [discriminate|].
+  destruct (c_tensor cx && Nat.eqb n0 n3); [discriminate|].
+  destruct (matmul_cells ops ct (c_hist cx) (c_hist cy) rows inner columns (c_data cx) (c_data cy) (cells rows columns))
+    as [[t1 zs]|] eqn:E1; [|discriminate].
+  cbn [omap fst snd]. intros E; inversion E; subst ct' cs; clear E.
+  destruct (each_cells ops et rows inner columns (e_recs ex) (e_recs ey) (cells rows columns)) as [[t2 ws]| |] eqn:E2;
+    try discriminate.
+  cbn [omap fst snd]. intros E; inversion E; subst et' es; clear E.
+  pose proof I as (G1 & _ & _ & G2 & _).
+  unfold cont_ok in Hcx, Hcy. rewrite as_records_mk in Hcx, Hcy.
+  destruct (matmul_cells_ok _ _ rows inner columns _ _ _ _ Hs _ _ _ _ _ G1 Hcx Hcy E1) as (s1 & X1 & Hzs).
+  destruct (each_cells_ok rows inner columns _ _ _ _ _ _ _ _ _ G2 Hex Hey E2) as (s2 & X2 & Hws).
+  exists [dcells inner columns dxs dys (cells rows columns)]. split; [|reflexivity].
+  apply (Inv_op _ _ _ _ _ _ _ _ _ _ _ s1 s2 _ _ _ I X1 X2).
+  - constructor; [|constructor]. unfold cont_ok. rewrite as_records_mk. cbn [c_data c_hist]. exact Hzs.
+  - constructor; [|constructor]. exact Hws.
+  - constructor; [|constructor]. split; reflexivity.
+Qed.
+
+Lemma eval_each2_ok e1 e2 : forall rs ds first t s t' ys1 ys2, good t s -> recs_ok t s rs ds ->
+  eval_each2 ops t e1 e2 rs first = Some (Ok (t', (ys1, ys2))) ->
+  exists s', ext t s t' s' /\ recs_ok t' s' ys1 (deval_each e1 ds first) /\ recs_ok t' s' ys2 (deval_each e2 ds first).
+Proof.
+  induction rs as [|r rest IH]; intros ds first t s t' ys1 ys2 G Hr.
+  - cbn. intros E. inversion E; subst. exists s. split; [apply ext_refl; auto|]. inversion Hr; subst. split; constructor.
+  - inversion Hr as [|? d ? dr Hr1 Hrr]; subst. cbn [eval_each2].
+    destruct (rec_eval ops t e1 r first) as [[[t1 y1]| |]|] eqn:E1; try discriminate.
+    destruct (rec_eval_ok first e1 _ _ _ _ _ _ G Hr1 E1) as (s1 & X1 & Hy1).
+    pose proof X1 as (_ & G1 & M1).
+    destruct (rec_eval ops t1 e2 r first) as [[[t2 y2]| |]|] eqn:E2; try discriminate.
+    destruct (rec_eval_ok first e2 _ _ _ _ _ _ G1 (M1 _ _ Hr1) E2) as (s2 & X2 & Hy2).
+    pose proof X2 as (_ & G2 & M2).
+    destruct (eval_each2 ops t2 e1 e2 rest false) as [[[t3 [yr1 yr2]]| |]|] eqn:E3; try discriminate.
+    intros E. inversion E; subst t' ys1 ys2; clear E.
+    pose proof (ext_trans _ _ _ _ _ _ X1 X2) as X12.
+    destruct (IH dr false t2 s2 t3 yr1 yr2 G2 (recs_ok_ext _ _ _ _ _ _ X12 Hrr) E3) as (s3 & X3 & H1 & H2).
+    exists s3. split; [eapply ext_trans; eauto|]. pose proof X3 as (_ & _ & M3). cbn [deval_each].
+    split; constructor; auto.
+Qed.
+
+Lemma sim_fromiters2 x j ct cenv et eenv ctgt etgt fenv e1 e2 a ct' cs et' es :
+  Inv x j ct cenv et eenv ctgt etgt fenv ->
+  cstep ops (ct, cenv) (OFromIters2 e1 e2 a) = Some (Ok (ct', cs)) ->
+  estep ops (et, eenv) (OFromIters2 e1 e2 a) = Some (Ok (et', es)) ->
+  exists fs, Inv x j ct' (cenv ++ cs) et' (eenv ++ es) ctgt etgt (fenv ++ fs) /\ length cs = 2.
+Proof.
+  intros I. cbn [cstep estep].
+  destruct (nth_error cenv a) as [cx|] eqn:Ea; [|discriminate].
+  destruct (Inv_get _ _ _ _ _ _ _ _ _ _ _ I Ea) as (ex & ds & Ee & Hc & He & [L1 L2]). rewrite Ee.
+  destruct (eval_each2 ops ct e1 e2 (as_records cx) true) as [[[t1 [ys1 ys2]]| |]|] eqn:E1; try discriminate.
+  destruct (c_from_iter (c_tensor cx) (c_shape cx) ys1) as [c1| |] eqn:Ef1; try discriminate;
+    destruct (c_from_iter (c_tensor cx) (c_shape cx) ys2) as [c2| |] eqn:Ef2; try discriminate.
+  intros E; inversion E; subst ct' cs; clear E.
+  destruct (eval_each2 ops et e1 e2 (e_recs ex) true) as [[[t2 [zs1 zs2]]| |]|] eqn:E2; try discriminate.
+  cbn [omap fst snd]. intros E; inversion E; subst et' es; clear E.
+  destruct (c_from_iter_records _ _ _ _ Ef1) as (R1 & R2 & R3).
+  destruct (c_from_iter_records _ _ _ _ Ef2) as (Q1 & Q2 & Q3).
+  pose proof I as (G1 & _ & _ & G2 & _).
+  destruct (eval_each2_ok e1 e2 _ _ _ _ _ _ _ _ G1 Hc E1) as (s1 & X1 & Hys1 & Hys2).
+  destruct (eval_each2_ok e1 e2 _ _ _ _ _ _ _ _ G2 He E2) as (s2 & X2 & Hzs1 & Hzs2).
+  exists [deval_each e1 ds true; deval_each e2 ds true]. split; [|reflexivity].
+  apply (Inv_op _ _ _ _ _ _ _ _ _ _ _ s1 s2 _ _ _ I X1 X2).
+  - constructor; [|constructor; [|constructor]]; unfold cont_ok; [rewrite R1|rewrite Q1]; assumption.
+  - constructor; [|constructor; [|constructor]]; assumption.
+  - constructor; [|constructor; [|constructor]]; split; cbn; congruence.
+Qed.
+
 (* ------------------------------------------------------------------ whole programs *)
 (* operation kinds covered by the simulation proof below *)
 Definition supported (o : cop R) : bool :=
   match o with
-  | ODecl _ _ _ _ | OUnary _ _ _ _ | OBinary _ _ _ _ => true
-  | _ => false
+  | _ => true
   end.
 
 (* environment position x is created by a declaration of variables with more than j elements *)
@@ -818,6 +1253,18 @@ Proof.
     destruct (negb _); [discriminate|]. destruct (_ && _); [discriminate|].
     destruct (c_binop ops ct mode b0 c c0) as [[[? ?]| |]|]; try discriminate.
     cbn [omap fst snd]. intros E; inversion E. rewrite app_length. reflexivity.
+  - destruct (sim_matmul _ _ _ _ _ _ _ _ _ _ _ _ _ _ _ I Hc He) as (fs & I' & Hl).
+    exists fs, ctgt, etgt. split; [exact I'|]. split; [auto|]. split; [contradiction|].
+    rewrite app_length, Hl. reflexivity.
+  - destruct (sim_map _ _ _ _ _ _ _ _ _ _ _ _ _ _ _ _ I Hc He) as (fs & I' & Hl).
+    exists fs, ctgt, etgt. split; [exact I'|]. split; [auto|]. split; [contradiction|].
+    rewrite app_length, Hl. reflexivity.
+  - destruct (sim_fromiter _ _ _ _ _ _ _ _ _ _ _ _ _ _ _ _ _ I Hc He) as (fs & I' & Hl).
+    exists fs, ctgt, etgt. split; [exact I'|]. split; [auto|]. split; [contradiction|].
+    rewrite app_length, Hl. reflexivity.
+  - destruct (sim_fromiters2 _ _ _ _ _ _ _ _ _ _ _ _ _ _ _ _ I Hc He) as (fs & I' & Hl).
+    exists fs, ctgt, etgt. split; [exact I'|]. split; [auto|]. split; [contradiction|].
+    rewrite app_length, Hl. reflexivity.
 Qed.
 
 Lemma run_sim x j : forall prog ct cenv et eenv ctgt etgt fenv n n' m m' ct' cenv' et' eenv',
@@ -923,6 +1370,25 @@ Proof.
     congruence.
 Qed.
 
+
+Lemma all_supported (prog : list (cop R)) : forallb supported prog = true.
+Proof. induction prog as [|o r IH]; cbn; [reflexivity|]. rewrite IH. destruct o; reflexivity. Qed.
+
+Theorem elementwise_equiv_all prog m m' ct cenv et eenv :
+  crun ops ([], []) 0 prog = Some (m, Ok (ct, cenv)) ->
+  erun ops ([], []) 0 prog = Some (m', Ok (et, eenv)) ->
+  (forall o c e, nth_error cenv o = Some c -> nth_error eenv o = Some e ->
+     c_tensor c = e_tensor e /\ c_shape c = e_shape e /\
+     map fst (c_data c) = map (@r_num R) (e_recs e)) /\
+  (forall x j o i cx ex vx p rq c e v po ro h h',
+     is_input x j 0 prog ->
+     nth_error cenv x = Some cx -> nth_error eenv x = Some ex ->
+     nth_error (c_data cx) j = Some (vx, p) -> nth_error (e_recs ex) j = Some rq ->
+     nth_error cenv o = Some c -> nth_error eenv o = Some e ->
+     nth_error (c_data c) i = Some (v, po) -> c_hist c = Some h ->
+     nth_error (e_recs e) i = Some ro -> r_hist ro = Some h' ->
+     nth p (sweep ops ct po) rO = nth (r_idx rq) (sweep ops et (r_idx ro)) rO).
+Proof. apply elementwise_equiv. apply all_supported. Qed.
 
 (* ------------------------------------------------------------------ the constant side is inert
    The index stored next to a constant (history None) is never read: replacing the indexes of a
